@@ -382,7 +382,7 @@ impl Database {
                 regions.flush()?;
                 regions.sync_data()?;
             }
-            self.layout_mut().promote_pending_holes(self.name());
+            self.promote_pending_holes_if_unobserved();
             return Ok(0);
         }
 
@@ -434,8 +434,20 @@ impl Database {
         }
 
         debug!("{}: flushed {} regions", self, dirty_regions.len());
-        self.layout_mut().promote_pending_holes(self.name());
+        self.promote_pending_holes_if_unobserved();
         Ok(dirty_regions.len())
+    }
+
+    /// Makes the extents freed since the last flush reusable, unless a [`Reader`] is alive:
+    /// a reader pins the mapping with a read guard for as long as it lives and may still
+    /// point into such an extent (its region was relocated or removed meanwhile), so reuse
+    /// has to wait for a later flush. `try_write` also fails while a write is copying into
+    /// the mapping; that only postpones the promotion as well.
+    fn promote_pending_holes_if_unobserved(&self) {
+        let mut layout = self.layout_mut();
+        if self.0.mmap.try_write().is_some() {
+            layout.promote_pending_holes(self.name());
+        }
     }
 
     /// Gives the OS time to write dirty mmap pages before fsyncing.
